@@ -125,12 +125,81 @@ def desugar_body(mir):
     return n
 
 
+def desugar_from_fn(mir):
+    """`std::iter::from_fn(closure).collect::<Vec<T>>()` is the loop `v = Vec::new(); while let Some(x) = closure() { v.push(x) }; v`
+    (documented behaviour of `FromFn::next` = calling the closure, and of `FromIterator for Vec`).  Only this exact shape."""
+    blocks = mir['blocks']
+    locals_ = mir['locals']
+    n = 0
+    for ai in range(len(blocks)):
+        A = blocks[ai]
+        ta = A['term']
+        if ta['k'] != 'call' or not re.search(r'iter::from_fn$', ta.get('r') or ta.get('f') or '') or len(ta['args']) != 1 or ta['dest']['p']:
+            continue
+        bi = ta.get('t')
+        if bi is None or bi < 0 or bi >= len(blocks):
+            continue
+        B = blocks[bi]
+        tb = B['term']
+        if tb['k'] != 'call' or not re.search(r'iter::Iterator::collect$', tb.get('r') or tb.get('f') or '') or len(tb['args']) != 1 or tb['dest']['p']:
+            continue
+        # between the two calls only constants may be assigned to other locals (drop flags)
+        if any(not (st['k'] == 'assign' and st['rv']['k'] == 'use' and 'const' in st['rv']['o'] and st['lhs']['l'] != ta['dest']['l']) for st in B['stmts']):
+            continue
+        src = tb['args'][0].get('move') or tb['args'][0].get('copy')
+        if not src or src['p'] or src['l'] != ta['dest']['l']:
+            continue
+        A['stmts'] = list(A['stmts']) + list(B['stmts'])
+        vec_ty = tb['dest']['ty']
+        if not vec_ty.startswith('std::vec::Vec<'):
+            continue
+        fpl = ta['args'][0].get('move') or ta['args'][0].get('copy')
+        if not fpl or fpl['p']:
+            continue
+        callee = None
+        for blk in blocks:
+            for st in blk['stmts']:
+                if st['k'] == 'assign' and st['lhs']['l'] == fpl['l'] and not st['lhs']['p'] and st['rv']['k'] == 'agg' and st['rv']['kind'].get('agg') == 'closure':
+                    callee = st['rv']['kind'].get('def')
+        if not callee:
+            continue
+        elem_ty = _first_generic(vec_ty) or '?'
+        opt_ty = 'std::option::Option<%s>' % elem_ty
+        sp = tb.get('sp')
+        base = len(locals_)
+        locals_.extend([vec_ty, opt_ty, 'isize', '&mut ' + fpl['ty'], '&mut ' + vec_ty, '()'])
+        Lv, Lr, Ld, Lc, Lref, Lunit = range(base, base + 6)
+        target, dest = tb['t'], tb['dest']
+        nb = len(blocks)
+        H, S, PUSH, EXIT = range(nb, nb + 4)
+
+        def call(f, args, dst, t, ga=''):
+            return {'k': 'call', 'f': f, 'r': f, 'ga': ga, 'args': args, 'dest': dst, 't': t, 'sp': sp, 'exp': False}
+        A['term'] = call('alloc::std::vec::Vec::<T>::new', [], _place(Lv, vec_ty), H, '[%s]' % elem_ty)
+        blocks[bi] = {'cleanup': False, 'stmts': [], 'term': {'k': 'unreachable'}}
+        blocks.append({'cleanup': False, 'stmts': [{'k': 'assign', 'lhs': _place(Lc, '&mut ' + fpl['ty']), 'rv': {'k': 'ref', 'mut': True, 'p': copy.deepcopy(fpl)}, 'sp': sp, 'exp': False}],
+                       'term': call(callee, [{'move': _place(Lc, '&mut ' + fpl['ty'])}], _place(Lr, opt_ty), S)})
+        blocks.append({'cleanup': False, 'stmts': [{'k': 'assign', 'lhs': _place(Ld, 'isize'), 'rv': {'k': 'discr', 'p': _place(Lr, opt_ty)}, 'sp': sp, 'exp': False}],
+                       'term': {'k': 'switch', 'd': {'move': _place(Ld, 'isize')}, 't': [['0', EXIT], ['1', PUSH]], 'else': EXIT}})
+        blocks.append({'cleanup': False, 'stmts': [{'k': 'assign', 'lhs': _place(Lref, '&mut ' + vec_ty), 'rv': {'k': 'ref', 'mut': True, 'p': _place(Lv, vec_ty)}, 'sp': sp, 'exp': False}],
+                       'term': call('alloc::std::vec::Vec::<T, A>::push', [{'move': _place(Lref, '&mut ' + vec_ty)}, {'move': _place(Lr, elem_ty, [{'dc': 1, 'n': 'Some'}, {'f': 0}])}],
+                                    _place(Lunit, '()'), H, '[%s, std::alloc::Global]' % elem_ty)})
+        blocks.append({'cleanup': False, 'stmts': [{'k': 'assign', 'lhs': copy.deepcopy(dest), 'rv': {'k': 'use', 'o': {'move': _place(Lv, vec_ty)}}, 'sp': sp, 'exp': False}],
+                       'term': {'k': 'goto', 't': target}})
+        n += 1
+    return n
+
+
 def desugar_crate(bodies, prefixes=('unic_langid_impl::', 'unic_locale_impl::')):
     total = 0
     for name, b in bodies.items():
         if name.startswith(prefixes) and b.get('mir'):
             try:
                 total += desugar_body(b['mir'])
+            except Exception:
+                pass
+            try:
+                total += desugar_from_fn(b['mir'])
             except Exception:
                 pass
     return total
